@@ -925,11 +925,15 @@ pub trait ReaderRef<RS>: Reader<RS> where RS: Read + Seek {
     fn worksheet_range_ref<'a>(&'a mut self, name: &str) -> Result<Range<DataRef<'a>>, Self::Error>;
 }
 //@@ impl src/lib.rs Dimensions
-// ASSUMED here (external_body): Dimensions::len -- under contract in unit lazyrange (C06.dimensions_len; its u32 overflow on hostile
-// dimensions is registered there)
+// ASSUMED here (external_body): Dimensions::len -- under contract in unit lazyrange (clause text of C06.dimensions_len: the number of
+// positions, 0 for reversed corners, saturated at u64::MAX)
 //@@ fn src/lib.rs Dimensions::len props=C06 ret=r external_body
 //@@ sig
-    ensures self.start.0 <= self.end.0 && self.start.1 <= self.end.1 ==> r == (self.end.0 - self.start.0 + 1) * (self.end.1 - self.start.1 + 1),
+    ensures
+        r == (if self.start.0 <= self.end.0 && self.start.1 <= self.end.1 {
+                let n = (self.end.0 - self.start.0 + 1) * (self.end.1 - self.start.1 + 1);
+                if n <= u64::MAX { n } else { u64::MAX as int }
+            } else { 0 }),
 //@@ end
 //@@ endimpl
 
@@ -1640,7 +1644,11 @@ verif_str_split_nth(&path, \g<1>, \g<2>)
                                 proof { if good { assert(at[k].key == k_state()); assert(at[k].key != k_name()); assert(unesc(at[k].raw) is Some); assert(vis_of(unesc(at[k].raw)->Some_0) is Some); } }
 //@@ before /let r = &relationships/
                                 proof { axiom_bytes_keyed_map(rels, cow_ref(&v));
-                                    if good { assert(key.0@ == at[k].key); assert(qn_prefix(key.0@) is Some); assert(qn_local(key.0@) == b"id"@); assert(rid_key(at[k])); assert(rid_attr(at[k])); assert(at[k].key != k_name() && at[k].key != k_state()); assert(cow_ref(&v)@ == at[k].raw); assert(rel_at(rels, at[k].raw) is Some); } }
+                                    if good {
+                                        assert(key.0@ == at[k].key); assert(qn_prefix(key.0@) is Some); assert(qn_local(key.0@) == b"id"@);
+                                        //# C01,C16.relationship_id_is_the_prefixed_id_attribute
+                                        assert(rid_key(at[k]));
+                                        assert(rid_attr(at[k])); assert(at[k].key != k_name() && at[k].key != k_state()); assert(cow_ref(&v)@ == at[k].raw); assert(rel_at(rels, at[k].raw) is Some); } }
 //@@ before /let typ = match/
                     proof { reveal_strlit("xl/"); if path@.len() == 0 { assert(find_ch(path@, '/', 0) == 0); assert(split_nth(path@, '/', 1) is None); } }
 //@@ before /path = if r\.starts_with/
@@ -1665,6 +1673,7 @@ verif_str_split_nth(&path, \g<1>, \g<2>)
                         if good {
                             assert(st0.root);
                             assert(ev[pos].wf());
+                            //# C16.workbookPr_carries_the_root_prefix
                             assert(ev[pos].prefix == ev[ri].prefix);
                             assert(is_main(ev[pos]));
                             //# C16.date1904_only_from_the_workbooks_workbookPr
